@@ -4,3 +4,4 @@ import SsqlVerif.Props.C13
 #print axioms C13.convertLike_sound
 #print axioms C13.rewritten_eq_loop
 #print axioms C13.isnull_paths_agree
+#print axioms C13.facts_wildcards
